@@ -33,9 +33,18 @@ InTableLoose(tag, e, c) == InTable(tag, e, c) \/ (~c.err /\ ~c.panicked /\ ~c.ch
 
 PropertyHolds(c) == ~c.panicked /\ (c.err => ~c.changed)
 
+\* a null inside the document reaches, through the root call, the method of a NESTED type that fills typed additional
+\* properties: the outcome is then the one the as-is machine has for that configuration on a nil raw map
+NestedOutcome(e, c) ==
+  /\ "nestedAddl" \in DOMAIN e /\ e.nestedAddl /\ "hasNull" \in DOMAIN c /\ c.hasNull
+  /\ \E i \in DOMAIN Table :
+        LET r == Table[i] IN
+        /\ r.tag = "asis" /\ r.hasRaw /\ r.hasAddl /\ r.rawNil
+        /\ r.err = c.err /\ r.panicked = c.panicked /\ r.changed = c.changed
+
 Class(e, c) ==
   IF PropertyHolds(c) THEN (IF InTableLoose("asis", e, c) THEN "ok" ELSE "drift")
-  ELSE IF InTableLoose("asis", e, c) THEN "known" ELSE "violation"
+  ELSE IF InTableLoose("asis", e, c) \/ NestedOutcome(e, c) THEN "known" ELSE "violation"
 
 Report(n, i, e, c, k) ==
   PrintT("REPORT " \o ToJson([l |-> n, i |-> i, class |-> k, kind |-> "total", devs |-> <<"AddlNullPanics">>,
